@@ -50,7 +50,7 @@ def write_nb(path, nb, r):
         json.dump(disk_form(nb, r), f)
 
 
-def make_case(gen, r, d):
+def make_case(gen, r, d, force=None):
     """returns dict(case) describing files and argv; files are (re)created by prepare()"""
     from ..workloads import valid_triple, covering_configs, config_flags
     cls, b, l, rm, info, waste = valid_triple(gen, cls=r.choice([None, None, "same_line", "del_vs_edit", "both_insert_dissimilar", "random", "same_output"]))
@@ -58,6 +58,8 @@ def make_case(gen, r, d):
         return None
     placeholder = r.choice(["none", "none", "none", "base_null", "local_null", "remote_null", "both_null", "empty_base"])
     mode = r.choice(["out_sentinel", "out_fresh", "stdout", "driver", "driver", "decisions_out"])
+    if force:
+        placeholder, mode = force
     if placeholder == "both_null" and mode in ("stdout", "decisions_out"):
         mode = "out_sentinel"
     cfg = [c for c in covering_configs(r, 6) if c["merge"] != "mergetool"]
@@ -426,10 +428,16 @@ def run_shard(spec):
     injected = 0
     for k in range(spec["cases"]):
         gen = NBGen(r, exotic=False)
-        case = make_case(gen, r, d)
+        # every fourth shard starts with an agreed-deletion case (output removed) and enumerates its faults as well
+        force = ("both_null", "out_sentinel") if (k == 0 and spec.get("shard", 0) % 4 == 1) else \
+                (("none", "driver") if (k == 0 and spec.get("shard", 0) % 4 == 3) else None)
+        case = make_case(gen, r, d, force)
         if case is None:
             continue
         ff = fault_free(col, case, d, r)
+        if ff and force:
+            inject_all(col, case, d, r, ff)
+            continue
         if ff and injected < spec["inject_cases"] and (k % 3 == 0 or k >= spec["cases"] - spec["inject_cases"]):
             injected += 1
             inject_all(col, case, d, r, ff)
